@@ -202,6 +202,8 @@ impl Set {
         // hostile documents: (iv) empty and scalar roots, curated hostile documents
         let mut docs: Vec<Value> = vec![json!(null), json!(true), json!(0), json!(""), json!("abc"), json!([]), json!({}), json!([[]]), json!({"": {"": []}}), json!({"a": 1, "p": "(a*)*b", "b": [1, 2, {"a": [3]}]}), json!([1, "a", null, [1, [2, [3]]], {"a": {"a": {"a": 1}}}])];
         docs.extend(gen::curated_docs().into_iter().filter(|d| d.node_count() < 300).map(|d| d.to_value()));
+        docs.push(Value::Array((0..300).map(|i| json!(i)).collect()));
+        docs.push(json!({"w": (0..1025).map(|i| json!({"i": i})).collect::<Vec<_>>(), "s": "x".repeat(300)}));
         docs.push(json!(["aaaaaaaaaaaaaaaaaaaaaaaaaaaaaaaaaaaaaaaaaaaaaaaaaaaaaaaaaaaaaaaaaaaaaaaaaaaaaaaaaaaaaaaaaaaaaaaaaaaaaaaaaaaaaaaaaaac"]));
         Set { cases, docs }
     }
